@@ -1238,3 +1238,51 @@ Proof.
   destruct (noc_new_from_spec _ _ _ _ _ HI E) as (_ & P & R). split; [exact P|].
   destruct r as [c|e]; [|exact I]. tauto.
 Qed.
+
+(* the constructor succeeds exactly when every given object passes the type check *)
+Lemma noc_add_obj_cases : forall h c o ty l d h' r,
+  hinv h -> view h c = Some (ty, l, d) -> noc_add h c (OpObj o) = (h', r) ->
+  (issub (ocls o) ty = true /\ r = Ok tt) \/ (issub (ocls o) ty = false /\ r = Err TypeError /\ h' = h).
+Proof.
+  intros h c o ty l d h' r HI V E. unfold noc_add in E. unfold view in V.
+  destruct (get_inst h c) as [[[ty0 lo] di]|]; [|discriminate].
+  destruct (get_list h lo) as [l0|]; [|discriminate]. destruct (get_dict h di) as [d0|]; [|discriminate].
+  inversion V; subst ty0 l0 d0. cbn in E. destruct (issub (ocls o) ty) eqn:I.
+  - inversion E; subst. left; auto.
+  - inversion E; subst. right; auto.
+Qed.
+
+Lemma add_each_decides : forall s h c ty l d h' r,
+  hinv h -> view h c = Some (ty, l, d) -> add_each h c s = (h', r) ->
+  (Forall (fun o => issub (ocls o) ty = true) s -> r = Ok tt)
+  /\ (forall e, r = Err e -> e = TypeError /\ ~ Forall (fun o => issub (ocls o) ty = true) s).
+Proof.
+  induction s as [|o t IH]; intros h c ty l d h' r HI V E; cbn in E.
+  - inversion E; subst. split; [reflexivity | intros e X; discriminate].
+  - destruct (noc_add h c (OpObj o)) as [h1 r1] eqn:Ea.
+    destruct (noc_add_obj_cases _ _ _ _ _ _ _ _ HI V Ea) as [[I R]|[I [R Hh]]]; subst r1.
+    + destruct (noc_add_spec _ _ _ _ _ HI Ea) as (HI1 & _ & _ & ty2 & lo & di & l2 & news & A & B & C & D & V1).
+      assert (ty2 = ty).
+      { apply view_nth in V. destruct V as (lo0 & di0 & A0 & _). rewrite A in A0. inversion A0; reflexivity. }
+      subst ty2. destruct (IH _ _ _ _ _ _ _ HI1 V1 E) as [P1 P2]. split.
+      * intros F. inversion F; subst. apply P1; assumption.
+      * intros e X. destruct (P2 e X) as [Q1 Q2]. split; [exact Q1|]. intros F. inversion F; subst. apply Q2; assumption.
+    + inversion E; subst. split.
+      * intros F. inversion F; subst. congruence.
+      * intros e X. inversion X; subst. split; [reflexivity|]. intros F. inversion F; subst. congruence.
+Qed.
+
+Theorem new_from_decides : forall ops ty s h' r,
+  noc_new_from (run [] ops) ty s = (h', r) ->
+  (Forall (fun o => issub (ocls o) ty = true) s -> exists c, r = Ok c)
+  /\ (forall e, r = Err e -> e = TypeError /\ ~ Forall (fun o => issub (ocls o) ty = true) s).
+Proof.
+  intros ops ty s h' r E. pose proof (run_inv ops [] hinv_nil) as HI.
+  unfold noc_new_from in E. destruct (noc_new (run [] ops) ty) as [h1 c] eqn:En.
+  destruct (noc_new_spec _ _ _ _ HI En) as (HI1 & _ & _ & V1).
+  destruct (add_each h1 c s) as [h2 r2] eqn:Ea.
+  destruct (add_each_decides _ _ _ _ _ _ _ _ HI1 V1 Ea) as [P1 P2].
+  destruct r2 as [u|e2]; inversion E; subst.
+  - split; [intros _; exists c; reflexivity | intros e X; discriminate].
+  - split; [intros F; specialize (P1 F); discriminate | intros e X; inversion X; subst; apply P2; reflexivity].
+Qed.
